@@ -100,7 +100,7 @@ def tlc_model(module, cfg, wd, workers=12, timeout=1800, simulate=None, extra=""
         res["violated"] = res["violated"] or "temporal"
     if rc == 124:
         raise ToolError("TLC timed out on %s/%s" % (module, cfg))
-    if "Model checking completed. No error has been found" in out or (simulate and rc == 0):
+    if "Model checking completed. No error has been found" in out or (simulate and rc == 0 and not res["violated"]):
         res["ok"] = True
     elif res["violated"] is None:
         raise ToolError("TLC failed on %s/%s:\n%s" % (
